@@ -32,7 +32,7 @@ RULE = (
     "original dropped and garbage-collected before the copy is used (tables, simulation, set_ncomp), and every initial state is saved "
     "here and loaded in a fresh interpreter (tables, simulation, set_ncomp must equal the saving process)"
 )
-REQUIRED_COVER = ["copy_used_after_original_died", "set_ncomp_on_swc_copy_after_original_died", "pickle_loaded_in_fresh_process", "view_copied", "loc_view_copied", "make_trainable_on_copied_view", "coordinates_edited_on_copy", "swc_radius_functions", "network_with_synapses", "trainables", "clamps", "groups", "gradient_compared",
+REQUIRED_COVER = ["coordinate_edit_on_copy_compared_with_original", "copy_used_after_original_died", "set_ncomp_on_swc_copy_after_original_died", "pickle_loaded_in_fresh_process", "view_copied", "loc_view_copied", "make_trainable_on_copied_view", "coordinates_edited_on_copy", "swc_radius_functions", "network_with_synapses", "trainables", "clamps", "groups", "gradient_compared",
                   "set_ncomp_on_unpickled_swc", "copy_edited_original_unchanged"]
 ASSUMPTIONS = ["eager CPU execution is deterministic, so identical modules give bit-identical integrate results"]
 SIG_INIT = False
@@ -102,7 +102,11 @@ OPS["x_move"] = lambda m: m.move(10.0, -5.0, 2.0)
 OPS["x_move_view"] = lambda m: (m.cell(0) if type(m).__name__ == "Network" else m.branch(0)).move(3.0, 4.0, 0.0)
 OPS["x_rotate"] = lambda m: m.rotate(90)
 OPS["x_compute_xyz"] = lambda m: m.compute_xyz()
-_XOPS = ["x_move", "x_move_view", "x_rotate", "x_compute_xyz"]
+# coordinate edits that also recompute the compartment centres stored in .nodes (x, y, z columns)
+OPS["x_move_update_nodes"] = lambda m: m.move(-3.0, 7.0, 1.5, update_nodes=True)
+OPS["x_rotate_update_nodes"] = lambda m: m.rotate(45, update_nodes=True)
+OPS["x_centers"] = lambda m: (m.compute_xyz(), m.compute_compartment_centers())
+_XOPS = ["x_move", "x_move_view", "x_rotate", "x_compute_xyz", "x_move_update_nodes", "x_rotate_update_nodes", "x_centers"]
 _SWC_OPS = ["set_rad_b2c1", "set_v_b0", "ncomp_b1_2", "ncomp_b2_1", "group_b0", "rec_v_b2", "delrec_all", "stim_b0c0", "clamp_v_b1",
             "delstim_all", "delclamp_all", "train_rad_branches", "deltrain_all", "init_states", "ins_Leak_b0", "del_HH_all"]
 _RICH_OPS = [k for k in spec.OPS_FOR["net2"] if k not in ("n_connect_Tanh",)]
@@ -299,7 +303,7 @@ def check_after_original_died(init, hist, snap, sim0, out, viol):
                     viol("behaviour_differs_after_copy", label, f"{op} on the copy (original collected) differs from {op} on the original at {dd[:4]}", op=op.split("_")[0])
 
 
-def check_state(init, hist, do_sim, do_grad):
+def check_state(init, hist, do_sim, do_grad, do_xcmp=True):
     import sys
 
     mod = sys.modules[__name__]
@@ -379,13 +383,16 @@ def check_state(init, hist, do_sim, do_grad):
                 out["refusals"].append(f"{op}:{type(e).__name__}")
                 continue
             out["transitions"] += 1
-            if "ncomp" in op and init == "swc_cell" and how == "pickle":
-                out["cover"].append("set_ncomp_on_unpickled_swc")
+            if ("ncomp" in op and init == "swc_cell" and how == "pickle") or (op.startswith("x_") and do_xcmp):
+                if "ncomp" in op:
+                    out["cover"].append("set_ncomp_on_unpickled_swc")
+                else:
+                    out["cover"].append("coordinate_edit_on_copy_compared_with_original")
                 # the same operation on the original must give the same module (radius functions survived the round trip)
                 oo = explorer.replay(mod, init, hist)  # the ORIGINAL route (not a copy of any kind)
                 try:
                     OPS[op](oo)
-                    dd = canon.diff(canon.snapshot(oo), canon.snapshot(cc))
+                    dd = canon.diff(canon.snapshot(oo, with_xyzr=True), canon.snapshot(cc, with_xyzr=True))
                     if dd:
                         viol("behaviour_differs_after_copy", how, f"{op} on the copy differs from {op} on the original at {dd[:4]}", op=op.split("_")[0])
                 except Exception:
@@ -499,7 +506,7 @@ def fresh_process(item):
 def roundtrip(item):
     res = {"violations": [], "cover": [], "refusals": [], "digests": [], "evals": 0, "transitions": 0}
     for st in item["states"]:
-        r = check_state(st["init"], st["hist"], st["sim"], st["grad"])
+        r = check_state(st["init"], st["hist"], st["sim"], st["grad"], st.get("xcmp", True))
         for k in ("violations", "cover", "refusals", "digests"):
             res[k] += r[k]
         res["evals"] += r["evals"]
@@ -519,7 +526,8 @@ def explore(ctx):
     for (init, h), (_, hist) in sorted(seen.items(), key=lambda kv: (len(kv[1][1]), kv[0][0], kv[1][1])):
         sim = ctx.tier != "quick" or len(hist) <= 1
         grad = len(hist) == 0 or (ctx.tier != "quick" and len(hist) == 1 and "train" in hist[0])
-        states.append({"init": init, "hist": hist, "sim": sim, "grad": grad})
+        xcmp = len(hist) == 0 if ctx.tier == "quick" else len(hist) <= 1
+        states.append({"init": init, "hist": hist, "sim": sim, "grad": grad, "xcmp": xcmp})
     ctx.note("states_checked", len(states))
     items = [{"states": states[i:i + 2]} for i in range(0, len(states), 2)]
     ctx.map("roundtrip", items)
